@@ -324,6 +324,32 @@ def memo(ctx, R, py, modules):
     return n
 
 
+def copyout(ctx, R, py, modules):
+    """COPYOUT -- a getter that promises a copy (its docstring says so) or that hands out a copy today returns a fresh object:
+    `.copy()`, dict(..) / list(..), deepcopy(..).  Returning the internal container itself lets a caller's edit change the
+    object behind its setters' back (stoichiometry that no longer matches the equation, rate constants of the wrong dimension)."""
+    n = 0
+    for mn in modules:
+        m = py.mods.get(mn)
+        ctx.need(m is not None, R, "module %s not found" % mn)
+        for f in m.funcs.values():
+            if getattr(f, "_role", "") != "getter":
+                continue
+            doc = (ast.get_docstring(f) or "").lower()
+            if "copy of" not in doc and "a copy" not in doc:
+                continue
+            for r in [x for x in ast.walk(f) if isinstance(x, ast.Return) and x.value is not None]:
+                v = r.value
+                fresh = isinstance(v, ast.Call) and (
+                    (isinstance(v.func, ast.Attribute) and v.func.attr in ("copy", "deepcopy")) or
+                    (isinstance(v.func, ast.Name) and v.func.id in ("dict", "list", "tuple", "deepcopy", "UnitValue", "UnitArray")))
+                n += 1
+                ctx.check(fresh, R, r, f._qual, "return " + pyfe.src(v)[:60], "a fresh copy, as documented",
+                          "the getter is documented to return a copy but returns `%s` itself: editing the returned object edits the "
+                          "instance without its setters' checks" % pyfe.src(v)[:50])
+    return n
+
+
 def run(ctx, pid, py, modules, truth_floor=1):
     from . import truth
     truth.rule(ctx, pid + ".TRUTH", py, modules, floor=truth_floor)
@@ -333,6 +359,7 @@ def run(ctx, pid, py, modules, truth_floor=1):
     copies(ctx, pid + ".COPY", py, modules)
     query(ctx, pid + ".QUERY", py, modules)
     memo(ctx, pid + ".MEMO", py, modules)
+    copyout(ctx, pid + ".COPYOUT", py, modules)
     from . import argorder
     argorder.rule(ctx, pid + ".ARGS", py_modules=modules, cx=pid in CX_PROPS)
     nn = names(ctx, pid + ".NAMES", py, modules)
